@@ -23,6 +23,7 @@ package main
 // replica annotations of every RS afterwards, deployment.status.replicas afterwards.
 
 import (
+	"reflect"
 	"context"
 	"encoding/json"
 	"fmt"
@@ -361,7 +362,21 @@ func (cl *dsCluster) sync(in *dsState) interface{} {
 		if dc == nil {
 			return J{"skipped": true}
 		}
+		// the informer cache is shared and read-only: whatever the sync does (and whether or not its writes succeed), the
+		// objects the listers hand out must be left as they were
+		cacheBefore := map[string]*apps.ReplicaSet{}
+		for _, o := range cl.rsIdx.List() {
+			rs := o.(*apps.ReplicaSet)
+			cacheBefore[rs.Name] = rs.DeepCopy()
+		}
 		err := dc.VerifSyncDeployment(context.TODO(), d)
+		cacheIntact := true
+		for _, o := range cl.rsIdx.List() {
+			rs := o.(*apps.ReplicaSet)
+			if b, ok := cacheBefore[rs.Name]; !ok || !reflect.DeepEqual(b, rs) {
+				cacheIntact = false
+			}
+		}
 		writes := [][]int{}
 		for _, a := range cl.cs.Actions() {
 			if a.GetResource().Resource != "replicasets" || a.GetSubresource() != "" {
@@ -388,7 +403,7 @@ func (cl *dsCluster) sync(in *dsState) interface{} {
 				writes = append(writes, []int{idxOf[a.(k8stesting.DeleteAction).GetName()], -1000})
 			}
 		}
-		return J{"err": err != nil, "writes": writes, "post": cl.post(in)}
+		return J{"err": err != nil, "writes": writes, "post": cl.post(in), "cacheIntact": cacheIntact}
 	})
 }
 
